@@ -141,6 +141,28 @@ def replay(col, item):
                               {"abstract": {"db": db, "y": case["y"], "D": Dm.tolist(), "chi2_of_every_entry": case["chi2"][d]},
                                "concrete": {"permutation": idx}, "expected": [fl(exp["mean"]), fl(exp["var"])],
                                "observed": [float(mean[0]), float(std[0] ** 2)]})
+    # a large common offset in every CHANNEL (2^22, exact in binary): the observation is still the same distance from
+    # every entry, so the spike-regime estimates are the same - for x2_max = 0 (exact matches on the window boundary) too
+    offy = 2.0 ** 22
+    for d, Dm in enumerate(DS[m]):
+        for x2 in (0.0, 0.5):
+            exp = case["spike"]
+            try:
+                b = BMCI(y.copy() + offy, x.copy(), Dm * 1e-6)
+                with np.errstate(all="ignore"):
+                    mean, std = b.predict(yobs.copy() + offy, x2_max=x2)
+            except Exception as ex:
+                col.violation("predict-raises-%s-channel-offset" % type(ex).__name__,
+                              {"abstract": {"db": db, "y": case["y"], "D": Dm.tolist(), "channel_offset": offy}, "observed": repr(ex)[:200]})
+                continue
+            col.count(1)
+            bad = (not (np.isnan(mean[0]) and np.isnan(std[0]))) if exp["empty"] else \
+                (not close(mean[0], fl(exp["mean"]), 1e-9) or not close(std[0] ** 2, fl(exp["var"]), 1e-8))
+            if bad:
+                col.violation("predict-wrong-with-channel-offset" + ("-correlated" if d in CORRELATED[m] else ""),
+                              {"abstract": {"db": db, "y": case["y"], "D": Dm.tolist(), "channel_offset": offy, "x2_max": x2},
+                               "expected": "NaN" if exp["empty"] else [fl(exp["mean"]), fl(exp["var"])],
+                               "observed": [float(mean[0]), float(std[0] ** 2)]})
     # large constant offset in x (exact in binary): the spread must not be lost to cancellation (spike regime: weights are 0/1)
     if not case["spike"]["empty"]:
         off = 2.0 ** 26
